@@ -386,6 +386,15 @@ class ProvRecord(object):
             if value is not None:
                 return value
 
+        if isinstance(literal, Literal) and isinstance(
+            literal.datatype, QualifiedName
+        ):
+            # No conversion possible: keep the literal, but make sure the
+            # namespace of its datatype is known to the bundle
+            datatype = self._bundle.valid_qualified_name(literal.datatype)
+            if datatype is not literal.datatype:
+                literal = Literal(literal.value, datatype, literal.langtag)
+
         # No conversion possible, return the original value
         return literal
 
